@@ -89,3 +89,7 @@ VARIANTS += [
       rule='C06-DETECTED', key='failing=0'),
     M('C06', 'detection-frame-shares-the-input-index', E(PC, "            index = df.index.copy()", "            index = df.index"), rule='C06-INPLACE', key='index-of-the-detection-frame'),
 ]
+
+VARIANTS += [
+    M('C06', 'refactor-column-names-joined-as-text', E(PC, "                    raise Exception('DataFrame has no column %s' % fname)", "                    raise Exception('DataFrame has no column %s (it has: %s)' % (fname, ', '.join(map(str, self.df.columns))))"), kind='refactor'),
+]
